@@ -19,7 +19,7 @@ pid, k = sys.argv[1], sys.argv[2]
 no_suite = '--no-suite' in sys.argv
 src = '/tmp/seed_out/%s/%s' % (pid, k)
 name = '%s-%s' % (pid, k)
-wt = '/tmp/cf/%s' % name
+wt = '/tmp/cf/%s' % name.replace('-', '_')
 bcl = '/tmp/cf_bcl/%s' % name
 os.makedirs('/tmp/cf', exist_ok=True)
 os.makedirs(bcl, exist_ok=True)
